@@ -20,12 +20,16 @@ The `general` families use small integers/fractions -> relative tolerance REL_TO
 """
 import math
 import signal
+import warnings
 from fractions import Fraction as F
 
 import usim
 from usim import Pipe, UnboundedPipe, Scope, time, until
 
 from harness.check import parse_z_lists
+
+# usim leaves the trigger coroutine of an unused `time == c` condition un-awaited when a block ends first
+warnings.filterwarnings('ignore', message='coroutine .* was never awaited', category=RuntimeWarning)
 
 COQ_FILES = ['props/C13.v']
 REL_TOL = F(1, 10 ** 9)
@@ -464,7 +468,12 @@ def batch(ctx, cases, tag, with_model=True):
             ctx.bump('limit:' + ('default' if x['lim'] is None else 'inf' if x['lim'] == 'inf' else 'given'))
         obs, bad = check_case(ctx, case)
         obss.append(obs)
-        ctx.count(case, nontrivial=nontrivial(case))
+        _, ties, scales, overlap, _ = fluid(case)
+        ctx.bump('congestion:' + ('yes' if any(sc < 1 for sc in scales) else 'no'))
+        ctx.bump('overlap:' + ('yes' if overlap else 'no'))
+        if ties:
+            ctx.bump('cancel-at-completion ties', len(ties))
+        ctx.count(case, nontrivial=overlap or any(x['cancel'] is not None for x in case['xs']))
         ctx.sample(dict(case=case, observed=observed(case, obs)))
     if not with_model:
         return
